@@ -282,6 +282,9 @@ type c14Prov struct {
 type c14Script struct {
 	Default string    `json:"default"`
 	Over    []c14Prov `json:"over,omitempty"`
+	// PartialWithError: when one of the requested events cannot be read, the provider still hands
+	// over the ones it could read — next to the error (a database-backed provider with a bad row)
+	PartialWithError bool `json:"partial_with_error,omitempty"`
 }
 
 func c14Swap(version string, tree jv) jv {
@@ -330,6 +333,15 @@ func c14LibProvider(room *c14Room, s c14Script, asked *[]string) EventProvider {
 				panic("c14 harness: provider asked more than 100000 times (loop?)")
 			}
 			if _, m := s.lookup(room, id); m == "error" {
+				if s.PartialWithError {
+					var part []PDU
+					for _, id2 := range ids {
+						if tr, m2 := s.lookup(room, id2); m2 == "event" {
+							part = append(part, c14PDU(room.Version, tr))
+						}
+					}
+					return part, fmt.Errorf("c14: scripted provider error for %s (%d other events read)", id, len(part))
+				}
 				return nil, fmt.Errorf("c14: scripted provider error for %s", id)
 			}
 		}
